@@ -1,24 +1,25 @@
-//! Forced schedule on the real `compio_driver::SharedFd` (feature `sync`: Shared = Arc,
-//! WakerSlot = AtomicWaker).
+//! Forced schedule on the REAL `compio_driver::SharedFd` built with feature `sync`
+//! (Shared = Arc, WakerSlot = futures AtomicWaker).
 //!
-//! Thread C (closer) polls `fd.take()`; thread D drops the only other handle.
-//! `Drop for SharedFd` = `if strong_count == 2 && waits { waker.wake() }` followed by the implicit
-//! `Arc` decrement.  The waker used here is an ordinary cross-thread waker (it notifies the closer
-//! thread) that additionally waits until the closer thread has finished the poll it triggered —
-//! i.e. it only stretches the window between `wake()` and the decrement, which an unlucky
-//! preemption of D produces as well.
+//! Thread C polls `fd.take()`; thread D drops the only other handle.  `Drop for SharedFd` is
+//! `if strong_count == 2 && waits { waker.wake() }` followed by the implicit `Arc` decrement.  The
+//! waker is an ordinary cross-thread waker (it notifies thread C); in mode `forced` it
+//! additionally waits until C has finished the poll it triggered — it only stretches the window
+//! between `wake()` and the decrement, which a preemption of D at that point produces as well.
+//! In mode `free` it returns at once (control: the closer is then normally polled after the
+//! decrement and obtains the descriptor).
 //!
-//! Output (one line of integers):
-//!   <polls> <ready> <wakes> <fd_open_at_end> <stranded>
-//! stranded = 1: after D's drop completed the closer is Pending, is the only owner, holds no
-//! pending wake-up and nobody will ever wake it.
+//! Output: `<polls> <got_fd> <wakes> <fd_open_after_drop> <stranded>`
+//! stranded = 1: D's drop has completed, C is the only owner, returned Pending, no wake-up is
+//! pending and nobody is left to wake it (observed for 1.5 s).
 use std::{
     future::Future,
     os::fd::AsRawFd,
     pin::pin,
     sync::{
         Arc, Condvar, Mutex,
-        atomic::{AtomicUsize, Ordering},
+        atomic::{AtomicBool, AtomicUsize, Ordering},
+        mpsc,
     },
     task::{Context, Poll, Wake, Waker},
     time::Duration,
@@ -28,10 +29,11 @@ use compio_driver::SharedFd;
 
 #[derive(Default)]
 struct Chan {
-    // number of wake-ups delivered / number of polls completed by the closer thread
+    // (wake-ups delivered, polls completed after the first one)
     st: Mutex<(usize, usize)>,
     cv: Condvar,
     wakes: AtomicUsize,
+    forced: AtomicBool,
 }
 
 struct HandOver(Arc<Chan>);
@@ -44,12 +46,22 @@ impl Wake for HandOver {
         g.0 += 1;
         let want = g.1 + 1;
         ch.cv.notify_all();
-        // wait (bounded) until the closer thread finished the poll caused by this wake-up
-        let _ = ch
-            .cv
-            .wait_timeout_while(g, Duration::from_secs(2), |s| s.1 < want)
-            .unwrap();
+        if ch.forced.load(Ordering::SeqCst) {
+            // wait (bounded) until the closer thread finished the poll caused by this wake-up
+            let _ = ch
+                .cv
+                .wait_timeout_while(g, Duration::from_secs(2), |s| s.1 < want)
+                .unwrap();
+        }
     }
+}
+
+fn fd_open(fd: i32) -> bool {
+    unsafe extern "C" {
+        fn fcntl(fd: i32, cmd: i32, ...) -> i32;
+    }
+    // F_GETFD = 1
+    unsafe { fcntl(fd, 1) != -1 }
 }
 
 fn main() {
@@ -59,7 +71,11 @@ fn main() {
     let a = SharedFd::new(f);
     let b = a.clone();
     let ch = Arc::new(Chan::default());
+    ch.forced.store(forced, Ordering::SeqCst);
     let ch2 = ch.clone();
+    let (first_tx, first_rx) = mpsc::channel::<()>();
+    let (res_tx, res_rx) = mpsc::channel::<(usize, bool)>();
+    let (fin_tx, fin_rx) = mpsc::channel::<()>();
 
     let closer = std::thread::spawn(move || {
         let waker = Waker::from(Arc::new(HandOver(ch2.clone())));
@@ -67,57 +83,51 @@ fn main() {
         let mut fut = pin!(a.take());
         let mut polls = 0usize;
         let mut seen_wakes = 0usize;
-        loop {
+        let got = loop {
             polls += 1;
             let r = fut.as_mut().poll(&mut cx);
-            {
+            if polls == 1 {
+                first_tx.send(()).unwrap();
+            } else {
                 let mut g = ch2.st.lock().unwrap();
-                if polls > 1 {
-                    g.1 += 1;
-                } else {
-                    // first poll done: let main go on
-                    g.1 = 0;
-                }
+                g.1 += 1;
                 ch2.cv.notify_all();
             }
             if let Poll::Ready(x) = r {
-                return (polls, 1usize, x.is_some());
+                break x;
             }
-            // park until a new wake-up arrives (or 1.5 s pass: nobody wakes us)
+            // park until a new wake-up arrives; 1.5 s without one: nobody will wake us
             let g = ch2.st.lock().unwrap();
             let (g, to) = ch2
                 .cv
                 .wait_timeout_while(g, Duration::from_millis(1500), |s| s.0 <= seen_wakes)
                 .unwrap();
             if to.timed_out() {
-                return (polls, 0usize, false);
+                break None;
             }
             seen_wakes = g.0;
-        }
+        };
+        res_tx.send((polls, got.is_some())).unwrap();
+        // keep the future (and what it owns) alive until main has looked at the descriptor
+        let _ = fin_rx.recv();
+        drop(got);
     });
 
-    // let the closer do its first poll (Pending: two owners)
-    std::thread::sleep(Duration::from_millis(100));
-    let dropper = std::thread::spawn(move || {
-        if forced {
-            drop(b);
-        } else {
-            // control experiment: a waker that does not wait cannot be expressed by swapping the
-            // waker here; instead give the woken closer no chance to run before the decrement
-            drop(b);
-        }
-    });
+    // the closer's first poll: Pending (two owners)
+    first_rx.recv().unwrap();
+    let dropper = std::thread::spawn(move || drop(b));
     dropper.join().unwrap();
-    let (polls, ready, some) = closer.join().unwrap();
-    let open = unsafe { libc_fcntl(raw) };
-    let stranded = (ready == 0) as usize;
-    println!("{} {} {} {} {}", polls, ready + some as usize, ch.wakes.load(Ordering::SeqCst), open as usize, stranded);
-}
-
-fn libc_fcntl(fd: i32) -> bool {
-    // F_GETFD = 1
-    unsafe extern "C" {
-        fn fcntl(fd: i32, cmd: i32, ...) -> i32;
-    }
-    unsafe { fcntl(fd, 1) != -1 }
+    let (polls, got) = res_rx.recv().unwrap();
+    let open = fd_open(raw);
+    let stranded = !got && open;
+    println!(
+        "{} {} {} {} {}",
+        polls,
+        got as u8,
+        ch.wakes.load(Ordering::SeqCst),
+        open as u8,
+        stranded as u8
+    );
+    fin_tx.send(()).unwrap();
+    closer.join().unwrap();
 }
